@@ -2,6 +2,8 @@ mod c06;
 mod c10;
 mod c15;
 mod c16;
+mod c18;
+mod c19;
 mod c20;
 mod common;
 mod crash;
@@ -105,6 +107,25 @@ fn check(prop: &str, tier: &str) -> i32 {
             c16::run(tier, &mut r);
             r.finish()
         }
+        "C18" => {
+            let mut r = Report::new(prop, tier, "model_checking");
+            r.assumptions = vec![
+                "nushell is explored through; generator expressions that fail to parse, yield non-strings or the empty string are outside the grammar (documented exclusions)".into(),
+                "the 1 s restart delay is waited for in real time".into(),
+            ];
+            c18::run(tier, &mut r);
+            r.finish()
+        }
+        "C19" => {
+            let mut r = Report::new(prop, tier, "model_checking");
+            r.assumptions = vec![
+                "nushell is explored through; the schedule of overlapping calls is the OS's (their results carry the call id, so any mixing is detected whatever the schedule)".into(),
+                "absence (a call that must not be executed) is decided after all expected terminal events plus a 60 ms grace period".into(),
+                "restart behaviour (no replay of historical calls) is decided by C17's check".into(),
+            ];
+            c19::run(tier, &mut r);
+            r.finish()
+        }
         "C12" => {
             let mut r = Report::new(prop, tier, "model_checking");
             r.assumptions = vec![
@@ -147,6 +168,8 @@ fn main() {
                 "c06" => c06::worker(),
                 "c15" => c15::worker(),
                 "c16" => c16::worker(),
+                "c19" => c19::worker(),
+                "c18" => c18::worker(),
                 _ => usage(),
             }
             0
@@ -178,6 +201,8 @@ fn main() {
                 }
                 "c15" => c15::replay(rp),
                 "c16" => c16::replay(rp),
+                "c19" => c19::replay(rp),
+                "c18" => c18::replay(rp),
                 "e3" => {
                     let mut r = Report::new("C04", "quick", "fault_enumeration");
                     crash::run(rp["tier"].as_str().unwrap_or("quick"), &mut r);
